@@ -20,6 +20,8 @@ struct KV {   // ordered by key only: equivalence is coarser than equality
     int key;
     int tag;
 };
+VERIF_MISLEADING_ORDER(KV, key)
+VERIF_MISLEADING_EQUALITY(KV, key)
 struct KVLess { bool operator()(const KV& a, const KV& b) const { return a.key < b.key; } };
 struct KVGreater { bool operator()(const KV& a, const KV& b) const { return a.key > b.key; } };
 
